@@ -369,7 +369,7 @@ func ErrEvents(c ssa.CallInstruction) *ErrEv {
 				name := CalleeName(r)
 				if tag, ok := errPassThrough[name]; ok {
 					if tag != "" {
-						ev.Filtered = append(ev.Filtered, tag)
+						ev.Filtered = append(ev.Filtered, filterTag(tag, r))
 					}
 					if val := r.Value(); val != nil {
 						follow(val, filtered || tag != "")
@@ -393,6 +393,56 @@ func ErrEvents(c ssa.CallInstruction) *ErrEv {
 		ev.Dropped = true
 	}
 	return ev
+}
+
+// filterTag names an error filter precisely: resource.Ignore(kerrors.IsConflict, err)
+// becomes "Ignore(IsConflict)", IgnoreAny(err, a, b) "IgnoreAny(a,b)"; a predicate
+// that is not a plain function value is rendered "?" (never matches an allow-list).
+func filterTag(tag string, call ssa.CallInstruction) string {
+	if tag != "Ignore" && tag != "IgnoreAny" {
+		return tag
+	}
+	predName := func(v ssa.Value) string {
+		for {
+			switch x := v.(type) {
+			case *ssa.ChangeType:
+				v = x.X
+				continue
+			case *ssa.MakeInterface:
+				v = x.X
+				continue
+			case *ssa.Function:
+				return x.Name()
+			}
+			return "?"
+		}
+	}
+	args := call.Common().Args
+	if tag == "Ignore" {
+		if len(args) == 2 {
+			return "Ignore(" + predName(args[0]) + ")"
+		}
+		return "Ignore(?)"
+	}
+	return "IgnoreAny(?)"
+}
+
+// StrictOK returns the edges on which the call is known to have succeeded:
+// the nil edges of its error when no filter other than the named ones was
+// applied before the test, otherwise only the nil edges of the unfiltered error.
+func (e *ErrEv) StrictOK(allow ...string) []Edge {
+	for _, f := range e.Filtered {
+		ok := false
+		for _, a := range allow {
+			if a == f {
+				ok = true
+			}
+		}
+		if !ok {
+			return e.RawOK
+		}
+	}
+	return e.OK
 }
 
 // blockPos finds a printable position for a block.
